@@ -458,6 +458,11 @@ func (d *cdrv) start(m *lmon) error {
 			f.startUnknown = true
 		}
 	}
+	if (d.cs.Batch+len(m.files))%2 == 0 {
+		// -z next to follow is noted ("Cannot combine -f and -z") and has no effect: the files are still followed
+		args = append(args, "-z")
+		d.c.Count("cli_follow_runs_with_gunzip_flag", 1)
+	}
 	for _, f := range m.files {
 		args = append(args, f.path)
 	}
